@@ -3,7 +3,8 @@
 
    Reading guide.  [pick_sorted et l] is SyncState.change() on the change set [l] listed in the set's
    iteration order, [et] = now - age as the code computes it ([earlier_than c now age], one float rounding
-   [c_rnd c]).  Entries are tagged with their identity (position in the table).  [key_le a b] is
+   [c_rnd c]); [change] (the table level) uses [threshold c now age last]: now - age, raised to _last_changed_time
+   when age <= 0.  Entries are tagged with their identity (position in the table).  [key_le a b] is
    (priority a, max stamp a) <= (priority b, max stamp b) lexicographically.  Theorems about arithmetic
    take the properties of the rounding they need as hypotheses ([bump_ok], [cfg_ok], [exact]); ideal
    arithmetic ([cfg_exact]) satisfies all of them (Examples below); the IEEE-double instance [cfg_float]
@@ -79,30 +80,65 @@ Proof. exact oldest_first_false. Qed.
 Print Assumptions C17_oldest_change_first_refuted.
 (* partial: C17_picked_is_min ("older" = smaller max(changedL, changedR)) *)
 
-(* ---- ageing zero ----------------------------------------------------------------------------- *)
-Theorem C17_age_zero_all_eligible_partial : forall c now l,
+(* ---- ageing zero (SyncState.change since /repo 5c0d808 + ed9e461:
+        if age <= 0: earlier_than = max(earlier_than, _last_changed_time)) ------------------------- *)
+(* list level: every entry with a truthy stamp <= now is eligible and something is picked *)
+Theorem C17_age_zero_all_eligible : forall c now l,
   c_rnd c (now - 0) == now ->
   (forall x, In x l -> exists s q, ch s (snd x) = Some q /\ ~ q == 0 /\ q <= now) ->
   (forall x, In x l -> eligible (earlier_than c now 0) (snd x) = true) /\
   (l <> [] -> exists x, pick_sorted (earlier_than c now 0) l = Some x).
 Proof. exact age_zero_all_eligible. Qed.
-Print Assumptions C17_age_zero_all_eligible_partial.
+Print Assumptions C17_age_zero_all_eligible.
 
-(* without "stamp <= now" it is false: mark_changed's +0.001 and punts write stamps in the future *)
+(* table level: with ageing <= 0 an entry is eligible as soon as one truthy stamp is <= the last change stamp
+   (or <= now - age), whatever the clock reads, and then change() does return an entry *)
+Theorem C17_age_zero_eligible : forall c now age s e, age <= 0 ->
+  (exists sd q, ch sd e = Some q /\ ~ q == 0 /\ (q <= last s \/ q <= earlier_than c now age)) ->
+  eligible (threshold c now age (last s)) e = true.
+Proof. exact age_zero_eligible. Qed.
+Print Assumptions C17_age_zero_eligible.
+
+Theorem C17_age_zero_change_some : forall c now age order s j e, age <= 0 ->
+  order_ok order s = true -> nth_error (ents s) j = Some e -> inset e = true ->
+  (exists sd q, ch sd e = Some q /\ ~ q == 0 /\ (q <= last s \/ q <= earlier_than c now age)) ->
+  exists i, change c now age order s = Ok (Some i).
+Proof. exact age_zero_change_some. Qed.
+Print Assumptions C17_age_zero_change_some.
+
+(* history level: a stamp written by mark_changed (= the value _last_changed_time took) stays <= the last
+   change stamp for ever, so until it is punted or overwritten its entry is eligible at ageing <= 0 for EVERY
+   clock reading: same tick as other notifications, clock gone backwards *)
+Theorem C17_age_zero_marked_eligible : forall c sd t i s0 s1 ops s2 now age e2, bump_ok c -> age <= 0 ->
+  mark_changed c sd t i s0 = Ok s1 -> steps c ops s1 = Ok s2 ->
+  nth_error (ents s2) i = Some e2 -> ch sd e2 = Some (last s1) -> ~ last s1 == 0 ->
+  eligible (threshold c now age (last s2)) e2 = true.
+Proof. exact age_zero_marked_eligible. Qed.
+Print Assumptions C17_age_zero_marked_eligible.
+
+(* the same-tick history (corpus/C17/age_zero_same_tick.json): the pending second change was NOT picked by
+   the pre-5c0d808 variant [change_v0] (threshold = now - age) and IS picked by the code now *)
+Theorem C17_same_tick_second_change_old_refuted_new_picked :
+  exists s, steps (cfg_exact (1 # 4) (1 # 4)) same_tick_history {| ents := []; last := 1 |} = Ok s /\
+    member s 1 = true /\
+    change_v0 (cfg_exact (1 # 4) (1 # 4)) 5 0 [1%nat] s = Ok None /\
+    change (cfg_exact (1 # 4) (1 # 4)) 5 0 [1%nat] s = Ok (Some 1%nat).
+Proof. exact same_tick_v0_and_now. Qed.
+Print Assumptions C17_same_tick_second_change_old_refuted_new_picked.
+
+(* what stays false BY DESIGN: "every pending change" without the stamp bound -- a punted entry's stamps are
+   shifted punt_secs ahead of clock and last change stamp (that is the bounded deferral of
+   C17_punt_bounded_delay); witness: create, notify at 5, punt, change(0) at 5 *)
 Definition age_zero_every_pending_change_eligible_full : Prop :=
-  forall c now (l : list (nat * ent)), c_rnd c (now - 0) == now ->
-    (forall x, In x l -> exists s, truthy (ch s (snd x)) = true) ->
-    forall x, In x l -> eligible (earlier_than c now 0) (snd x) = true.
+  forall c l0 ops s now order, cfg_ok c -> exact c ->
+    steps c ops {| ents := []; last := l0 |} = Ok s -> order_ok order s = true ->
+    forall j e, nth_error (ents s) j = Some e -> inset e = true ->
+      (exists sd, truthy (ch sd e) = true) ->
+      eligible (threshold c now 0 (last s)) e = true.
 Theorem C17_age_zero_every_pending_change_eligible_refuted : ~ age_zero_every_pending_change_eligible_full.
 Proof. exact age_zero_every_pending_false. Qed.
 Print Assumptions C17_age_zero_every_pending_change_eligible_refuted.
-
-(* the history behind the witness: two notifications in one clock tick, ageing 0 *)
-Theorem C17_same_tick_second_change_not_eligible :
-  exists s, steps (cfg_exact (1 # 4) (1 # 4)) same_tick_history {| ents := []; last := 1 |} = Ok s /\
-    member s 1 = true /\ change (cfg_exact (1 # 4) (1 # 4)) 5 0 [1%nat] s = Ok None.
-Proof. exact same_tick_not_eligible. Qed.
-Print Assumptions C17_same_tick_second_change_not_eligible.
+(* partial: C17_age_zero_eligible / C17_age_zero_marked_eligible *)
 
 (* ---- change stamps --------------------------------------------------------------------------- *)
 (* any two notifications of a history get strictly increasing stamps, each >= its clock reading,
@@ -169,15 +205,15 @@ Proof. split; [intros [] H; simpl in *; [split; [reflexivity|reflexivity]|discri
    iteration order of the set *)
 Theorem C17_change_min : forall c now age order s i, change c now age order s = Ok (Some i) ->
   exists e, nth_error (ents s) i = Some e /\ inset e = true /\
-    eligible (earlier_than c now age) e = true /\
+    eligible (threshold c now age (last s)) e = true /\
     forall j e', nth_error (ents s) j = Some e' -> inset e' = true ->
-      eligible (earlier_than c now age) e' = true -> key_le e e'.
+      eligible (threshold c now age (last s)) e' = true -> key_le e e'.
 Proof. exact change_min. Qed.
 Print Assumptions C17_change_min.
 
 Theorem C17_change_none : forall c now age order s, change c now age order s = Ok None ->
   forall j e', nth_error (ents s) j = Some e' -> inset e' = true ->
-    eligible (earlier_than c now age) e' = false.
+    eligible (threshold c now age (last s)) e' = false.
 Proof. exact change_none. Qed.
 Print Assumptions C17_change_none.
 
@@ -191,10 +227,35 @@ Theorem C17_history_not_before_aged : forall c l0 ops s now age order i, cfg_ok 
   change c now age order s = Ok (Some i) ->
   exists e, nth_error (ents s) i = Some e /\ inset e = true /\
     (pri e < 0 \/
-     exists sd, aged (earlier_than c now age) (ch sd e) /\
-                forall t, nt sd e = Some t -> t <= earlier_than c now age).
+     exists sd, aged (threshold c now age (last s)) (ch sd e) /\
+                forall t, nt sd e = Some t -> t <= threshold c now age (last s)).
 Proof. exact history_not_before_aged. Qed.
 Print Assumptions C17_history_not_before_aged.
+
+(* a positive ageing interval is measured on the clock itself (threshold = now - age): after ANY history a pick
+   with priority >= 0 has a side whose stamp AND originating notification are at least `age` old on the clock,
+   even when change stamps run ahead of the clock (several notifications in one tick, clock set back) *)
+Theorem C17_history_not_before_aged_clock : forall c l0 ops s now age order i, cfg_ok c -> 0 < age ->
+  steps c ops {| ents := []; last := l0 |} = Ok s ->
+  change c now age order s = Ok (Some i) ->
+  exists e, nth_error (ents s) i = Some e /\ inset e = true /\
+    (pri e < 0 \/
+     exists sd, aged (earlier_than c now age) (ch sd e) /\
+                forall t, nt sd e = Some t -> t <= earlier_than c now age).
+Proof. exact history_not_before_aged_clock. Qed.
+Print Assumptions C17_history_not_before_aged_clock.
+
+Theorem C17_threshold_positive_age_is_clock : forall c now age lst, 0 < age ->
+  threshold c now age lst = earlier_than c now age.
+Proof. exact threshold_pos. Qed.
+Print Assumptions C17_threshold_positive_age_is_clock.
+
+Example ahead_of_clock :
+  exists s, steps (cfg_exact (1 # 4) (1 # 4)) ahead_history {| ents := []; last := 1 |} = Ok s /\
+    last s = 5 + (1 # 1000) /\
+    change (cfg_exact (1 # 4) (1 # 4)) 5 (1 # 1000) [0%nat; 1%nat] s = Ok None /\
+    change (cfg_exact (1 # 4) (1 # 4)) 5 0 [0%nat; 1%nat] s = Ok (Some 0%nat).
+Proof. exact ahead_of_clock_example. Qed.
 
 Example cfg_ok_ideal : cfg_ok (cfg_exact (1 # 4) (1 # 2)).
 Proof. apply cfg_ok_exact; discriminate. Qed.
@@ -212,3 +273,8 @@ Print Assumptions C17_gen_eligible_is_model.
 Theorem C17_gen_sort_key_is_model : forall a b, gen_key_ltb a b = key_ltb a b.
 Proof. exact gen_key_ltb_eq. Qed.
 Print Assumptions C17_gen_sort_key_is_model.
+
+Theorem C17_gen_threshold_is_model : forall et age last_changed,
+  gen_threshold_adj et age last_changed = threshold_adj et age last_changed.
+Proof. exact gen_threshold_adj_eq. Qed.
+Print Assumptions C17_gen_threshold_is_model.
